@@ -119,6 +119,10 @@ pub struct Choices {
     pub pos: usize,
     /// number of decision points where a non-zero alternative was actually taken
     pub nondefault: usize,
+    /// do not pick zero-width element constructors (0x40..0x45) for non-empty arrays
+    /// (carve-out of an open known finding); `avoided` counts how often this mattered
+    pub avoid_zero_width_elems: bool,
+    pub avoided: usize,
 }
 
 impl Choices {
@@ -130,6 +134,8 @@ impl Choices {
             bytes,
             pos: 0,
             nondefault: 0,
+            avoid_zero_width_elems: false,
+            avoided: 0,
         }
     }
     /// pick an index in 0..n
@@ -298,6 +304,10 @@ fn prepare(v: &RValue, ch: &mut Choices) -> Prep {
                     common.retain(|x| c.contains(x));
                 }
                 assert!(!common.is_empty(), "array elements have no common constructor");
+                if ch.avoid_zero_width_elems && common.iter().any(|c| (0x40..=0x45).contains(c)) && common.iter().any(|c| !(0x40..=0x45).contains(c)) {
+                    common.retain(|c| !(0x40..=0x45).contains(c));
+                    ch.avoided += 1;
+                }
                 let code = common[ch.pick(common.len())];
                 emit_constructor(&preps[0], code, &mut body);
                 for p in &preps {
